@@ -35,7 +35,8 @@ PROPS["C02"] = {
     "quick": {"cases": 70000},
     "thorough": {"cases": 2500000, "ceiling_s": 3000},
     "rule": ("accepted texts: 80% grammar-directed G_uri, 20% accepted survivors of G_noise, plus the accepted members of the exhaustive enumerations; "
-             "non-trivial = >= 3 components present, or an IP host, or >= 2 path segments; distinct by text"),
+             "non-trivial = >= 3 components present, or an IP host, or >= 2 path segments; distinct by text"
+             " Every allocation-failure position k of uriParseSingleUriExMm is tried as well: a parse that still reports success must deliver exactly the same components."),
     "assumptions": ["only texts accepted by the grammar oracle are judged (rejections are C01's)", "empty components may be any zero-length range"],
 }
 
@@ -65,7 +66,8 @@ PROPS["C04"] = {
     "quick": {"cases": 90000},
     "thorough": {"cases": 3000000, "ceiling_s": 3000},
     "rule": ("60% G_uri, 30% pool of degenerate combinations named by the property (empty host/port/userinfo, leading empty segments, lone / ? #, IPv4, IP literals), "
-             "10% accepted G_noise; non-trivial = authority present or >= 2 components; distinct by text"),
+             "10% accepted G_noise; non-trivial = authority present or >= 2 components; distinct by text"
+             " Every allocation-failure position of the parse and of uriMakeOwnerMm is tried: whatever is still reported as success must recompose to the same text."),
     "assumptions": ["texts >= 2^31 characters are out of reach"],
 }
 
@@ -95,7 +97,8 @@ PROPS["C06"] = {
     "rule": ("pairs from one shared pool of schemes/authorities/segments (base scheme-less in ~10%); references: relative-path 35%, absolute-path 20%, same-scheme absolute 15%, "
              "other scheme 10%, network-path 10%, empty path 10%; both options; three API forms; both character types. Non-trivial = merge or absolute-path branch taken and a dot or "
              "empty segment took part; distinct by (base, ref, option)"
-             " Reference schemes related to the base's (extension, proper prefix, other letter case) in ~45% of the other-scheme references; IP hosts that differ in one half/octet; with the recording manager a quarter of the calls have their k-th allocation fail once (a still-successful result is held to the model). Enumerated domain: every base x reference x option of the bounded path domain."),
+             " Reference schemes related to the base's (extension, proper prefix, other letter case) in ~45% of the other-scheme references; IP hosts that differ in one half/octet; with the recording manager a quarter of the calls have their k-th allocation fail once (a still-successful result is held to the model). Enumerated domain: every base x reference x option of the bounded path domain."
+             " Operands are made owner before the call in ~20% each and are bracketed bit for bit."),
     "assumptions": ["paths with more than ~12 segments are rare", "schemes differing only in letter case are judged with the option off (the statement says 'equals')"],
     "enumerate": {"pairs": "every base (scheme s, authority none|//h, path <= 2 (quick) / 3 (thorough) segments over {a, '', ., .., b:c}, rooted and rootless, query none|?q) x every reference (relative / absolute path <= 4 / 5 segments with tail none|?|#f, network-path, s:/t: absolute, empty) x both options"},
 }
@@ -144,7 +147,8 @@ PROPS["C10"] = {
     "rule": ("(S, B) from one pool with forced overlap classes: identical 8%, S prefix of B 12%, B prefix of S 14%, differ in last segment 16%, other port/userinfo/authority 10%, query on one side 8%, "
              "rooted vs rootless 6%, other scheme 8%, unrelated path 12%, non-absolute 6%; '.'/'..' segments in 15%; both modes; both managers; both character types. "
              "Non-trivial = same scheme and same host presence/text (the relative branch is reachable); distinct by (S, B, mode)"
-             " Schemes related by extension/prefix in the other-scheme class; IP hosts differing in one half/octet; with the recording manager a quarter of the calls have their k-th allocation fail once. Enumerated domain: every (source, base) pair of absolute URIs of the bounded domain x both modes."),
+             " Schemes related by extension/prefix in the other-scheme class; IP hosts differing in one half/octet; with the recording manager a quarter of the calls have their k-th allocation fail once. Enumerated domain: every (source, base) pair of absolute URIs of the bounded domain x both modes."
+             " S / B are made owner before the call in 25% / 17%; after the reference and the way back have been released S and B must be unchanged and releasable (ASan). Base queries include the empty query."),
     "assumptions": ["when both S and B lack a scheme either error code is accepted"],
     "enumerate": {"pairs": "every ordered pair of absolute URIs (schemes s|t, authority none|//h|//g|//u@h:1, path <= 2 (quick) / 3 (thorough) segments over {a, '', ., .., b:c}, rooted and rootless, query none|?q) x both modes"},
 }
@@ -177,7 +181,8 @@ PROPS["C11"] = {
     "thorough": {"cases": 1500000, "ceiling_s": 3000},
     "rule": ("arms: 17% three independent G_uri texts, 42% text + single-component mutation (+ second mutation or copy), 17% equal by construction (re-parse / make-owner copy / resolve empty reference), "
              "25% three objects out of a generated history. Non-trivial = the pair differs in exactly one component, or is equal without being the independent arm; distinct by case"
-             " A further arm (12%) compares overlapping views of one buffer ([0,n-i), [j,n) or [0,n-j), [0,n)), so ranges of different URIs start or end at the same address."),
+             " A further arm (12%) compares overlapping views of one buffer ([0,n-i), [j,n) or [0,n-j), [0,n)), so ranges of different URIs start or end at the same address."
+             " History objects are also compared with the parse of their own recomposed text (identical texts => equal). The host mutation includes IPvFuture literal <-> registered name of the same characters."),
     "assumptions": [],
 }
 
@@ -242,7 +247,8 @@ PROPS["C14"] = {
     "thorough": {"cases": 150000, "ceiling_s": 3000},
     "rule": ("operations weighted normalise 21%, resolve 16%, create reference 16%, parse 11%, make owner 11%, dissect 11%, normalise-resolved 11%, compose 5%; inputs from G_uri / correlated pairs; "
              "for each: all k in 1..n x {fail-once, fail-from} + one non-biting plan + up to 8 random masks, both character types. Non-trivial = the call makes >= 2 requests (so some k >= 2 hits after "
-             "something was built); distinct by case (each covers all its plans)"),
+             "something was built); distinct by case (each covers all its plans)"
+             " One case in four runs with a manager completed by uriCompleteMemoryManager from a malloc/free-only recording backend (the library's calloc sites then go through the emulation)."),
     "assumptions": [],
 }
 
